@@ -71,6 +71,7 @@ pub fn run(tier: &str) -> i32 {
     // offset" is not well defined for what follows; C05 covers their assertion literals)
     all.extend(crate::c05::io_host_space().into_iter().filter(|p| !p.key.contains("variant=2")));
     all.extend(lookalike_space());
+    all.extend(named_members_space());
     // member / element types written through `alias` declarations
     {
         let n0 = all.len();
@@ -100,7 +101,7 @@ pub fn run(tier: &str) -> i32 {
         let p = &progs[i];
         rep.states += 1;
         rep.transitions += p.env.get(&p.root).members.len() as u64;
-        let forced = p.key.starts_with("attr|") || (p.key.starts_with("alias-") && i % 5 == 0) || p.key.starts_with("rt") || (p.key.starts_with("io-host|") && i % 4 == 0) || p.key.contains("vec3<f32>|f32") || p.key.contains("mat3x3<f32>") && p.key.starts_with("s1");
+        let forced = p.key.starts_with("attr|") || p.key.starts_with("named|") || (p.key.starts_with("alias-") && i % 5 == 0) || p.key.starts_with("rt") || (p.key.starts_with("io-host|") && i % 4 == 0) || p.key.contains("vec3<f32>|f32") || p.key.contains("mat3x3<f32>") && p.key.starts_with("s1");
         if !(i % stride == 0 || forced) {
             continue;
         }
